@@ -75,14 +75,13 @@ fn run(case: &Sexp) -> Sexp {
     match c[0].as_str() {
         "parse_all" => {
             let t = c[1].as_str();
-            list(vec![
-                sym("ok"),
-                result(parser::parse(t)),
-                result(parser::parse(t.to_string())),
-                result(parser::parse_runtime(t)),
-                result(parser::parse_runtime(t.to_string())),
-                try_new(t),
-            ])
+            let r1 = result(parser::parse(t));
+            let r2 = result(parser::parse(t.to_string()));
+            let r3 = result(parser::parse_runtime(t));
+            let r4 = result(parser::parse_runtime(t.to_string()));
+            // borrowed vs owned agreement, computed here so that very deep trees need not be compared by the driver
+            let same = list(vec![sym("same"), sbool(r1 == r2), sbool(r3 == r4)]);
+            list(vec![sym("ok"), r1, r2, r3, r4, try_new(t), same])
         }
         "damage" => {
             // (damage #pre #entry #damaged #post)
